@@ -5,13 +5,13 @@
 wt=$1; md=$2; tag=$3; out=/var/tmp/mutverify/$tag.txt
 {
 echo "mutant $tag  $(date)"
-git -C $wt checkout -q -- . ; git -C $wt status --short | grep -v MUTANTS | head -3
+/verif/vf/wtfix.sh $wt >/dev/null 2>&1; git -C $wt checkout -q -- . ; git -C $wt status --short | grep -v MUTANTS | head -3
 ( cd $wt && make -j4 >/dev/null 2>&1 )
 ( cd $md && sh ./run.sh $wt >/dev/null 2>&1 ); echo "demo_clean_exit=$?"
 git -C $wt apply $md/patch.diff || echo "PATCH_FAILED"
 ( cd $wt && make -j4 >/dev/null 2>&1 ); echo "build_exit=$?"
 ( cd $md && sh ./run.sh $wt >/dev/null 2>&1 ); echo "demo_mutant_exit=$?"
-( cd $wt && make -k -j4 check > /var/tmp/mutverify/$tag.check.log 2>&1 )
+( cd $wt && make -C skeletons check >/dev/null 2>&1; cd $wt && make -k -j4 check > /var/tmp/mutverify/$tag.check.log 2>&1 )
 echo "pass=$(grep -c '^PASS' /var/tmp/mutverify/$tag.check.log) fail=$(grep '^FAIL' /var/tmp/mutverify/$tag.check.log | tr '\n' ' ')"
 git -C $wt checkout -q -- .
 ( cd $wt && make -j4 >/dev/null 2>&1 )
